@@ -74,21 +74,26 @@ func VerifC04_JSONWriter(n, pattern int) {
 	})
 	vAssert(kind == 0, "json-writer-terminates-normally")
 	if vSymbolic() {
-		// "[\n" + "  x" joined by ",\n" + "\n]\n"
-		want := []byte{'[', '\n'}
+		// one array: '[', the record tokens in order separated by single commas, ']' - white space apart, so
+		// that a change of layout that keeps the text valid JSON is not taken for a defect
+		want := []byte{'['}
 		for i, id := range ids {
 			if i > 0 {
-				want = append(want, ',', '\n')
+				want = append(want, ',')
 			}
-			want = append(want, ' ', ' ', id)
+			want = append(want, id)
 		}
-		want = append(want, '\n', ']', '\n')
-		ok := len(w.data) == len(want)
-		if ok {
-			for i := range want {
-				ok = ok && w.data[i] == want[i]
+		want = append(want, ']')
+		k := 0
+		ok := true
+		for _, c := range w.data {
+			if c == ' ' || c == '\n' || c == '\t' || c == '\r' {
+				continue
 			}
+			ok = ok && k < len(want) && c == want[k]
+			k++
 		}
+		ok = ok && k == len(want)
 		vAssert(ok, "json-output-is-one-array-with-one-element-per-record-in-order")
 	} else {
 		var recs []map[string]interface{}
